@@ -76,13 +76,13 @@ def reduceParam (meth : List Annot) (p : MParam) : Option RParam :=
 
 /-- `GetErrorResponses`: the first annotation of every status code, in order -/
 def errorCodes (meth : List Annot) : List Nat :=
-  ((getAll meth "ErrorResponse").filterMap fun a => a.value.toNat?).eraseDups
+  ((getAll meth "ErrorResponse").filterMap fun a => parseUint a.value).eraseDups
 
 /-- `GetResponseStatusCodeAndDescription` -/
 def successCode (meth : List Annot) (hasReturn : Bool) : Nat :=
   match getFirst meth "Response" with
   | none => if hasReturn then 200 else 204
-  | some a => if a.value.isEmpty then 0 else (a.value.toNat?).getD 0
+  | some a => if a.value.isEmpty then 0 else (parseUint a.value).getD 0
 
 structure RRoute where
   opId : String
@@ -99,7 +99,7 @@ structure RRoute where
 
 /-- `definitions.ConvertToHttpStatus`: decimal text below 2^32 that is one of the known status codes -/
 def statusOk (v : String) : Bool :=
-  match v.toNat? with
+  match parseUint v with
   | some n => n < 4294967296 && validStatusCodes.contains n
   | none => false
 
